@@ -149,14 +149,19 @@ def run(ctx, rep):
     # ------------------------------------------------------------------ R3 delay table
     cd = prog.own_method("BaseOrderPackage", "calc_simulated_delay")
     cfgd = ctx.cfg(cd)
+    from sa.kinds import folded_returns
     tab = {}
-    for n in cfgd.live_nodes():
-        if n.kind == "return" and n.ast.value is not None:
-            gs = [(utext(g.exprs[0]), pol) for g, pol in cfgd.guards(n.id) if pol]
-            pt = [t.split(".")[-1] for t, _ in gs if t.startswith("self.package_type == OrderPackageType.")]
-            sim = ("self.client.execution.EXCHANGE == ExchangeType.SIMULATED", True) in gs
-            if pt and sim:
-                tab[pt[0]] = utext(n.ast.value)
+    for pt in ("PLACE", "CANCEL", "UPDATE", "REPLACE"):
+        def ev(e, pt=pt):
+            t = utext(e)
+            if t == "self.client.execution.EXCHANGE == ExchangeType.SIMULATED":
+                return True
+            if t.startswith("self.package_type == OrderPackageType."):
+                return t.endswith("." + pt)
+            return None
+        # the delay for that kind: what is returned once the kind is fixed (if-chain or table-driven)
+        rets = folded_returns(cfgd, cd, ev, subst={"self.package_type": "OrderPackageType.%s" % pt}) - {"None"}
+        tab[pt] = sorted(rets)[0] if len(rets) == 1 else sorted(rets)
     want = {"PLACE": "config.place_latency + self.bet_delay", "CANCEL": "config.cancel_latency",
             "UPDATE": "config.update_latency", "REPLACE": "config.replace_latency + self.bet_delay"}
     rep.check(tab == want, "R3", key(cd, None, "delay table: latency per kind, plus the bet delay for PLACE and REPLACE"), cd,
